@@ -436,6 +436,13 @@ def bool_expr_bf(test: ast.AST, classify: T.Callable[[ast.AST], T.Tuple[str, boo
         return ~bool_expr_bf(test.operand, classify)
     if isinstance(test, ast.Constant):
         return BF.true() if test.value else BF.false()
+    if isinstance(test, ast.Compare) and len(test.ops) > 1:
+        # a <= b <= c  is  (a <= b) and (b <= c)
+        out = BF.true()
+        operands = [test.left] + list(test.comparators)
+        for i, op in enumerate(test.ops):
+            out = out & bool_expr_bf(ast.copy_location(ast.Compare(left=operands[i], ops=[op], comparators=[operands[i + 1]]), test), classify)
+        return out
     atom, pol = classify(test)
     v = BF.var(atom)
     return v if pol else ~v
